@@ -1,7 +1,1095 @@
-//! C10 layer L2 (real FileWatcher behind a stubbed notify/debouncer) - placeholder.
+//! C10 layer L2: the real `FileWatcher` (hook H2) behind a stub of inotify +
+//! notify-debouncer-full driven by a discrete-event clock (DESIGN.md §4.5).
+//!
+//! * `Debounce` is a port of `DebounceDataInner::{add_event, push_event, push_remove_event,
+//!   handle_rename_from/to, push_rename_event, debounced_events, sort_events}` from
+//!   notify-debouncer-full 0.7.0 with `now()` reading the simulated clock, the Linux
+//!   `NoCache` file-id cache, a 100 ms tick and a 400 ms timeout.
+//! * `raw_events` translates a user operation into the events notify 8.2's inotify back end
+//!   emits for it, for paths covered by a watch.
+//! * The oracle is the one of L1 (fresh run), evaluated when the debouncer has drained.
 
-use crate::{c10::RunStats, model::{C10Scenario, Violation}};
+use std::{
+    collections::{BTreeMap, BTreeSet, VecDeque},
+    path::{Path, PathBuf},
+    sync::Arc,
+    time::{Duration, Instant},
+};
 
-pub fn run_l2(_scn: &C10Scenario, _stats: &mut RunStats) -> Vec<Violation> {
-    Vec::new()
+use notify::{
+    event::{
+        AccessKind, AccessMode, CreateKind, DataChange, MetadataKind, ModifyKind, RemoveKind,
+        RenameMode,
+    },
+    Event, EventKind,
+};
+use notify_debouncer_full::DebouncedEvent;
+
+use crate::{
+    c10::{op_kind, Oracle, RunStats},
+    cli::utils::FileWatcher,
+    exec::{self, Outcome, Store},
+    gen,
+    model::{Body, C10Scenario, ConfigSource, Op, Violation},
+    simfs::{SimFs, SIM_CWD},
+};
+
+const P: &str = "C10";
+pub const TIMEOUT_MS: u64 = 400;
+pub const TICK_MS: u64 = 100;
+
+// ------------------------------------------------------------------ debouncer port
+
+#[derive(Clone, Debug, PartialEq, Eq)]
+pub struct DEvent {
+    pub kind: EventKind,
+    pub paths: Vec<PathBuf>,
+    pub tracker: Option<usize>,
+    pub info: Option<String>,
+    pub time: u64,
+}
+
+#[derive(Clone, Debug, Default)]
+struct Queue {
+    events: VecDeque<DEvent>,
+}
+
+impl Queue {
+    fn was_created(&self) -> bool {
+        self.events.front().is_some_and(|event| {
+            matches!(
+                event.kind,
+                EventKind::Create(_) | EventKind::Modify(ModifyKind::Name(RenameMode::To))
+            )
+        })
+    }
+    fn was_removed(&self) -> bool {
+        self.events.front().is_some_and(|event| {
+            matches!(
+                event.kind,
+                EventKind::Remove(_) | EventKind::Modify(ModifyKind::Name(RenameMode::From))
+            )
+        })
+    }
+}
+
+#[derive(Clone, Debug, Default)]
+pub struct Debounce {
+    queues: BTreeMap<PathBuf, Queue>,
+    rename_event: Option<DEvent>,
+    pub now: u64,
+}
+
+#[derive(Clone, Debug)]
+pub struct RawEvent {
+    pub kind: EventKind,
+    pub paths: Vec<PathBuf>,
+    pub tracker: Option<usize>,
+}
+
+impl Debounce {
+    pub fn is_empty(&self) -> bool {
+        self.queues.is_empty()
+    }
+
+    pub fn has_exact_queue(&self, path: &Path) -> bool {
+        self.queues.contains_key(path)
+    }
+
+    /// Is any event pending for `path` or something below it?
+    pub fn has_queue_under(&self, path: &Path) -> bool {
+        self.queues.keys().any(|p| p.starts_with(path))
+    }
+
+    pub fn debounced_events(&mut self) -> Vec<DEvent> {
+        let now = self.now;
+        let mut events_expired: Vec<DEvent> = Vec::new();
+        let mut queues_remaining = BTreeMap::new();
+        let queues = std::mem::take(&mut self.queues);
+        for (path, mut queue) in queues {
+            let mut kind_index: Vec<(EventKind, usize)> = Vec::new();
+            while let Some(event) = queue.events.pop_front() {
+                if let Some(pos) = kind_index.iter().position(|(k, _)| *k == event.kind) {
+                    let idx = kind_index[pos].1;
+                    events_expired.remove(idx);
+                    for entry in kind_index.iter_mut() {
+                        if entry.1 > idx {
+                            entry.1 -= 1;
+                        }
+                    }
+                }
+                if now.saturating_sub(event.time) >= TIMEOUT_MS {
+                    let len = events_expired.len();
+                    if let Some(pos) = kind_index.iter().position(|(k, _)| *k == event.kind) {
+                        kind_index[pos].1 = len;
+                    } else {
+                        kind_index.push((event.kind, len));
+                    }
+                    events_expired.push(event);
+                } else {
+                    queue.events.push_front(event);
+                    break;
+                }
+            }
+            if !queue.events.is_empty() {
+                queues_remaining.insert(path, queue);
+            }
+        }
+        self.queues = queues_remaining;
+        sort_events(events_expired)
+    }
+
+    pub fn add_event(&mut self, event: RawEvent, target_exists: impl Fn(&Path) -> bool) {
+        let path = match event.paths.first() {
+            Some(path) => path.clone(),
+            None => return,
+        };
+        let now = self.now;
+        let devent = |e: &RawEvent, time: u64| DEvent {
+            kind: e.kind,
+            paths: e.paths.clone(),
+            tracker: e.tracker,
+            info: None,
+            time,
+        };
+        match &event.kind {
+            EventKind::Create(_) => self.push_event(devent(&event, now)),
+            EventKind::Modify(ModifyKind::Name(rename_mode)) => match rename_mode {
+                RenameMode::Any => {
+                    if target_exists(&path) {
+                        self.handle_rename_to(devent(&event, now));
+                    } else {
+                        self.handle_rename_from(devent(&event, now));
+                    }
+                }
+                RenameMode::To => self.handle_rename_to(devent(&event, now)),
+                RenameMode::From => self.handle_rename_from(devent(&event, now)),
+                RenameMode::Both | RenameMode::Other => {}
+            },
+            EventKind::Remove(_) => self.push_remove_event(devent(&event, now)),
+            EventKind::Other => {}
+            _ => self.push_event(devent(&event, now)),
+        }
+    }
+
+    fn handle_rename_from(&mut self, event: DEvent) {
+        self.rename_event = Some(event.clone());
+        self.push_event(event);
+    }
+
+    fn handle_rename_to(&mut self, event: DEvent) {
+        let trackers_match = self
+            .rename_event
+            .as_ref()
+            .and_then(|e| e.tracker)
+            .and_then(|from_tracker| event.tracker.map(|to_tracker| from_tracker == to_tracker))
+            .unwrap_or_default();
+        if trackers_match {
+            let mut rename_event = self.rename_event.take().unwrap();
+            let path = rename_event.paths.remove(0);
+            let time = rename_event.time;
+            self.push_rename_event(path, event, time);
+        } else {
+            let mut e = event;
+            e.time = self.now;
+            self.push_event(e);
+        }
+        self.rename_event = None;
+    }
+
+    fn push_rename_event(&mut self, path: PathBuf, event: DEvent, time: u64) {
+        let mut source_queue = self.queues.remove(&path).unwrap_or_default();
+        // remove rename `from` event
+        source_queue.events.pop_back();
+        // remove existing rename event
+        let found = source_queue.events.iter().enumerate().find_map(|(index, e)| {
+            if matches!(e.kind, EventKind::Modify(ModifyKind::Name(RenameMode::Both))) {
+                Some((Some(index), e.paths[0].clone(), e.time))
+            } else {
+                None
+            }
+        });
+        let (remove_index, original_path, original_time) = found.unwrap_or((None, path, time));
+        if let Some(remove_index) = remove_index {
+            source_queue.events.remove(remove_index);
+        }
+        // split off remove or move out event and add it back to the events map
+        if source_queue.was_removed() {
+            let e = source_queue.events.pop_front().unwrap();
+            self.queues.insert(
+                e.paths[0].clone(),
+                Queue {
+                    events: [e].into(),
+                },
+            );
+        }
+        // update paths
+        for e in source_queue.events.iter_mut() {
+            e.paths = vec![event.paths[0].clone()];
+        }
+        // insert rename event at the front, unless the file was just created
+        if !source_queue.was_created() {
+            source_queue.events.push_front(DEvent {
+                kind: EventKind::Modify(ModifyKind::Name(RenameMode::Both)),
+                paths: vec![original_path, event.paths[0].clone()],
+                tracker: event.tracker,
+                info: None,
+                time: original_time,
+            });
+        }
+        if let Some(target_queue) = self.queues.get_mut(&event.paths[0]) {
+            if !target_queue.was_created() {
+                let mut remove_event = DEvent {
+                    kind: EventKind::Remove(RemoveKind::Any),
+                    paths: vec![event.paths[0].clone()],
+                    tracker: None,
+                    info: None,
+                    time: original_time,
+                };
+                if !target_queue.was_removed() {
+                    remove_event.info = Some("override".to_owned());
+                }
+                source_queue.events.push_front(remove_event);
+            }
+            *target_queue = source_queue;
+        } else {
+            self.queues.insert(event.paths[0].clone(), source_queue);
+        }
+    }
+
+    fn push_remove_event(&mut self, event: DEvent) {
+        let path = event.paths[0].clone();
+        // remove child queues
+        self.queues.retain(|p, _| !p.starts_with(&path) || *p == path);
+        match self.queues.get_mut(&path) {
+            Some(queue) if queue.was_created() => {
+                self.queues.remove(&path);
+            }
+            Some(queue) => {
+                queue.events = [event].into();
+            }
+            None => self.push_event(event),
+        }
+    }
+
+    fn push_event(&mut self, event: DEvent) {
+        let path = event.paths[0].clone();
+        if let Some(queue) = self.queues.get_mut(&path) {
+            let keep = match event.kind {
+                EventKind::Modify(
+                    ModifyKind::Any
+                    | ModifyKind::Data(_)
+                    | ModifyKind::Metadata(_)
+                    | ModifyKind::Other,
+                )
+                | EventKind::Create(_) => !queue.was_created(),
+                _ => true,
+            };
+            if keep {
+                queue.events.push_back(event);
+            }
+        } else {
+            self.queues.insert(
+                path,
+                Queue {
+                    events: [event].into(),
+                },
+            );
+        }
+    }
+}
+
+fn sort_events(events: Vec<DEvent>) -> Vec<DEvent> {
+    let mut sorted = Vec::with_capacity(events.len());
+    let mut events_by_path: BTreeMap<PathBuf, VecDeque<DEvent>> = BTreeMap::new();
+    for event in events {
+        events_by_path
+            .entry(event.paths.last().cloned().unwrap_or_default())
+            .or_default()
+            .push_back(event);
+    }
+    // min-heap on (time, path)
+    let mut heap: BTreeSet<(u64, PathBuf)> = events_by_path
+        .iter()
+        .map(|(path, events)| (events[0].time, path.clone()))
+        .collect();
+    while let Some((min_time, path)) = heap.pop_first() {
+        let events = events_by_path.get_mut(&path).unwrap();
+        let mut push_next = false;
+        while events.front().is_some_and(|event| event.time <= min_time) {
+            sorted.push(events.pop_front().unwrap());
+            push_next = true;
+        }
+        if push_next {
+            if let Some(event) = events.front() {
+                heap.insert((event.time, path));
+            }
+        }
+    }
+    sorted
+}
+
+// ------------------------------------------------------------------ inotify translation
+
+fn abs(rel: &str) -> PathBuf {
+    PathBuf::from(format!("{}/{}", SIM_CWD, rel))
+}
+
+fn ev(kind: EventKind, rel: &str) -> RawEvent {
+    RawEvent {
+        kind,
+        paths: vec![abs(rel)],
+        tracker: None,
+    }
+}
+
+fn modify(rel: &str) -> RawEvent {
+    ev(EventKind::Modify(ModifyKind::Data(DataChange::Any)), rel)
+}
+
+fn open(rel: &str) -> RawEvent {
+    ev(EventKind::Access(AccessKind::Open(AccessMode::Any)), rel)
+}
+
+fn close_write(rel: &str) -> RawEvent {
+    ev(EventKind::Access(AccessKind::Close(AccessMode::Write)), rel)
+}
+
+/// How a file save reaches the disk.
+#[derive(Clone, Copy, Debug, PartialEq, Eq, Hash, PartialOrd, Ord)]
+pub enum SaveStyle {
+    InPlace,
+    /// write a temporary sibling, then rename it over the target
+    Atomic,
+    /// unlink, then create again
+    DeleteRecreate,
+}
+
+#[derive(Debug, Default)]
+pub struct Watches {
+    /// watched directories (relative paths)
+    pub dirs: BTreeSet<String>,
+    /// single-file (inode) watches
+    pub files: BTreeSet<String>,
+    next_cookie: usize,
+}
+
+impl Watches {
+    fn dir_watched(&self, rel: &str) -> bool {
+        self.dirs.contains(gen::parent(rel)) || (gen::parent(rel).is_empty() && self.dirs.contains("."))
+    }
+
+    pub fn watch_recursive(&mut self, fs: &SimFs, rel: &str) {
+        let rel = gen::normalize(rel);
+        if fs.user_is_dir(&rel) {
+            self.dirs.insert(rel.clone());
+            for (p, c) in fs.snapshot(&rel) {
+                if c.is_none() {
+                    self.dirs.insert(p);
+                }
+            }
+        } else if fs.user_exists(&rel) {
+            self.files.insert(rel);
+        }
+    }
+
+    pub fn watch_file(&mut self, fs: &SimFs, rel: &str) {
+        let rel = gen::normalize(rel);
+        if fs.user_exists(&rel) && !fs.user_is_dir(&rel) {
+            self.files.insert(rel);
+        }
+    }
+
+    pub fn unwatch(&mut self, rel: &str) {
+        let rel = gen::normalize(rel);
+        self.files.remove(&rel);
+        let prefix = format!("{}/", rel);
+        self.dirs.retain(|d| *d != rel && !d.starts_with(&prefix));
+    }
+
+    fn cookie(&mut self) -> usize {
+        self.next_cookie += 1;
+        self.next_cookie
+    }
+}
+
+/// Raw notify events for one user operation, given the watches in force, and the change
+/// applied to the simulated file system.
+pub fn apply_op(
+    fs: &SimFs,
+    watches: &mut Watches,
+    op: &Op,
+    style: SaveStyle,
+) -> Vec<RawEvent> {
+    let mut out: Vec<RawEvent> = Vec::new();
+    match op {
+        Op::Edit { path, body } | Op::Add { path, body } => {
+            let bytes = body.bytes().unwrap_or_default();
+            let existed = fs.user_exists(path);
+            // directories created on the way
+            let mut missing_dirs: Vec<String> = Vec::new();
+            let mut p = gen::parent(path).to_owned();
+            while !p.is_empty() && !fs.user_exists(&p) {
+                missing_dirs.push(p.clone());
+                p = gen::parent(&p).to_owned();
+            }
+            missing_dirs.reverse();
+            // `mkdir -p` immediately followed by the file: inotify reports the topmost new
+            // directory; notify adds watches for it and everything inside afterwards, so
+            // what was created inside in the meantime is not reported (calibrated)
+            let mut raced = false;
+            for (i, d) in missing_dirs.iter().enumerate() {
+                fs.user_mkdir(d);
+                if i == 0 {
+                    if watches.dir_watched(d) {
+                        out.push(ev(EventKind::Create(CreateKind::Folder), d));
+                        raced = true;
+                    }
+                }
+            }
+            if raced {
+                for d in &missing_dirs {
+                    watches.dirs.insert(d.clone());
+                }
+            }
+            let dir_watched = watches.dir_watched(path) && !raced;
+            let file_watched = watches.files.contains(path);
+            if !existed {
+                fs.user_write(path, &bytes);
+                if dir_watched {
+                    out.push(ev(EventKind::Create(CreateKind::File), path));
+                    out.push(open(path));
+                    out.push(modify(path));
+                    out.push(close_write(path));
+                }
+            } else {
+                match style {
+                    SaveStyle::InPlace => {
+                        fs.user_write(path, &bytes);
+                        if dir_watched {
+                            out.push(open(path));
+                            out.push(modify(path));
+                            out.push(close_write(path));
+                        }
+                        if file_watched {
+                            out.push(open(path));
+                            out.push(modify(path));
+                            out.push(close_write(path));
+                        }
+                    }
+                    SaveStyle::Atomic => {
+                        let tmp = format!("{}.tmp~", path);
+                        fs.user_write(&tmp, &bytes);
+                        fs.user_rename(&tmp, path);
+                        if dir_watched {
+                            let cookie = watches.cookie();
+                            out.push(ev(EventKind::Create(CreateKind::File), &tmp));
+                            out.push(open(&tmp));
+                            out.push(modify(&tmp));
+                            out.push(close_write(&tmp));
+                            out.push(RawEvent {
+                                kind: EventKind::Modify(ModifyKind::Name(RenameMode::From)),
+                                paths: vec![abs(&tmp)],
+                                tracker: Some(cookie),
+                            });
+                            out.push(RawEvent {
+                                kind: EventKind::Modify(ModifyKind::Name(RenameMode::To)),
+                                paths: vec![abs(path)],
+                                tracker: Some(cookie),
+                            });
+                            out.push(RawEvent {
+                                kind: EventKind::Modify(ModifyKind::Name(RenameMode::Both)),
+                                paths: vec![abs(&tmp), abs(path)],
+                                tracker: Some(cookie),
+                            });
+                        }
+                        if file_watched {
+                            // the old inode is gone: its watch reports that and dies
+                            out.push(ev(EventKind::Modify(ModifyKind::Metadata(MetadataKind::Any)), path));
+                            out.push(ev(EventKind::Remove(RemoveKind::File), path));
+                            watches.files.remove(path);
+                        }
+                    }
+                    SaveStyle::DeleteRecreate => {
+                        fs.user_remove(path);
+                        fs.user_write(path, &bytes);
+                        if file_watched {
+                            out.push(ev(EventKind::Modify(ModifyKind::Metadata(MetadataKind::Any)), path));
+                            out.push(ev(EventKind::Remove(RemoveKind::File), path));
+                            watches.files.remove(path);
+                        }
+                        if dir_watched {
+                            out.push(ev(EventKind::Remove(RemoveKind::File), path));
+                            out.push(ev(EventKind::Create(CreateKind::File), path));
+                            out.push(open(path));
+                            out.push(modify(path));
+                            out.push(close_write(path));
+                        }
+                    }
+                }
+            }
+        }
+        Op::Touch { path } => {
+            if let Some(bytes) = fs.user_read(path) {
+                fs.user_write(path, &bytes);
+                if watches.dir_watched(path) {
+                    out.push(open(path));
+                    out.push(modify(path));
+                    out.push(close_write(path));
+                }
+                if watches.files.contains(path) {
+                    out.push(open(path));
+                    out.push(modify(path));
+                    out.push(close_write(path));
+                }
+            }
+        }
+        Op::RemoveFile { path } => {
+            if fs.user_exists(path) && !fs.user_is_dir(path) {
+                fs.user_remove(path);
+                if watches.files.contains(path) {
+                    out.push(ev(EventKind::Modify(ModifyKind::Metadata(MetadataKind::Any)), path));
+                    out.push(ev(EventKind::Remove(RemoveKind::File), path));
+                    watches.files.remove(path);
+                }
+                if watches.dir_watched(path) {
+                    out.push(ev(EventKind::Remove(RemoveKind::File), path));
+                }
+            }
+        }
+        Op::RemoveDir { path } => {
+            if fs.user_is_dir(path) {
+                remove_dir_events(fs, watches, path, &mut out);
+                fs.user_remove(path);
+            }
+        }
+        Op::Rename { from, to } => {
+            if fs.user_exists(from) && !fs.user_is_dir(from) {
+                let from_watched = watches.dir_watched(from);
+                let to_watched = watches.dir_watched(to);
+                fs.user_rename(from, to);
+                let cookie = watches.cookie();
+                if from_watched {
+                    out.push(RawEvent {
+                        kind: EventKind::Modify(ModifyKind::Name(RenameMode::From)),
+                        paths: vec![abs(from)],
+                        tracker: Some(cookie),
+                    });
+                }
+                if to_watched {
+                    out.push(RawEvent {
+                        kind: EventKind::Modify(ModifyKind::Name(RenameMode::To)),
+                        paths: vec![abs(to)],
+                        tracker: Some(cookie),
+                    });
+                    if from_watched {
+                        out.push(RawEvent {
+                            kind: EventKind::Modify(ModifyKind::Name(RenameMode::Both)),
+                            paths: vec![abs(from), abs(to)],
+                            tracker: Some(cookie),
+                        });
+                    }
+                }
+            }
+        }
+        _ => {}
+    }
+    out
+}
+
+/// `rm -r`: depth first; every directory reports the removal of its children, then its
+/// own removal twice (DELETE_SELF on its own watch, DELETE|ISDIR on its parent's).
+fn remove_dir_events(fs: &SimFs, watches: &mut Watches, dir: &str, out: &mut Vec<RawEvent>) {
+    let children: Vec<(String, bool)> = fs
+        .snapshot(dir)
+        .into_iter()
+        .filter(|(p, _)| gen::parent(p) == dir)
+        .map(|(p, c)| (p, c.is_none()))
+        .collect();
+    let self_watched = watches.dirs.contains(dir);
+    for (child, is_dir) in children {
+        if is_dir {
+            remove_dir_events(fs, watches, &child, out);
+        } else {
+            if watches.files.contains(&child) {
+                out.push(ev(EventKind::Modify(ModifyKind::Metadata(MetadataKind::Any)), &child));
+                out.push(ev(EventKind::Remove(RemoveKind::File), &child));
+                watches.files.remove(&child);
+            }
+            if self_watched {
+                out.push(ev(EventKind::Remove(RemoveKind::File), &child));
+            }
+        }
+    }
+    if self_watched {
+        out.push(ev(EventKind::Remove(RemoveKind::Folder), dir));
+        watches.dirs.remove(dir);
+    }
+    if watches.dir_watched(dir) {
+        out.push(ev(EventKind::Remove(RemoveKind::Folder), dir));
+    }
+}
+
+// ------------------------------------------------------------------ driver
+
+fn to_debounced(events: &[DEvent], base: Instant) -> Vec<DebouncedEvent> {
+    events
+        .iter()
+        .map(|e| {
+            let mut event = Event::new(e.kind);
+            for p in &e.paths {
+                event = event.add_path(p.clone());
+            }
+            if let Some(t) = e.tracker {
+                event = event.set_tracker(t);
+            }
+            if let Some(info) = &e.info {
+                event = event.set_info(info);
+            }
+            DebouncedEvent::new(event, base + Duration::from_millis(e.time))
+        })
+        .collect()
+}
+
+fn process_options(scn: &C10Scenario) -> Result<crate::cli::process::Options, String> {
+    use clap::Parser;
+    #[derive(Parser)]
+    struct Wrapper {
+        #[command(flatten)]
+        options: crate::cli::process::Options,
+    }
+    let mut args: Vec<String> = vec![
+        "darklua-process".to_owned(),
+        scn.opts.input.clone(),
+        scn.opts.output.clone().unwrap_or_else(|| scn.opts.input.clone()),
+    ];
+    match &scn.opts.config {
+        ConfigSource::At(path) => {
+            args.push("--config".to_owned());
+            args.push(path.clone());
+        }
+        ConfigSource::Default => {}
+        ConfigSource::Object(_) => return Err("L2 needs a configuration file".to_owned()),
+    }
+    if let Some(format) = &scn.opts.generator_override {
+        args.push("--format".to_owned());
+        args.push(format.clone());
+    }
+    args.push("--watch".to_owned());
+    Wrapper::try_parse_from(args)
+        .map(|w| w.options)
+        .map_err(|e| format!("clap: {}", e))
+}
+
+fn watcher_outcome(watcher: &FileWatcher) -> Outcome {
+    match watcher.verif_worker_tree() {
+        None => Outcome::BatchErr("no worker tree (the first run failed as a whole)".to_owned()),
+        Some(tree) => {
+            let success = tree.success_count();
+            let mut errors: Vec<String> =
+                tree.collect_errors().iter().map(|e| e.to_string()).collect();
+            errors.sort();
+            Outcome::Done { errors, success }
+        }
+    }
+}
+
+fn strip_cwd(path: &Path) -> String {
+    path.strip_prefix(SIM_CWD)
+        .unwrap_or(path)
+        .to_string_lossy()
+        .into_owned()
+}
+
+pub fn style_for(seed: u64, op_index: usize) -> SaveStyle {
+    match crate::rng::mix(seed, op_index as u64) % 4 {
+        0 => SaveStyle::Atomic,
+        1 => SaveStyle::DeleteRecreate,
+        _ => SaveStyle::InPlace,
+    }
+}
+
+pub fn run_l2(scn: &C10Scenario, stats: &mut RunStats) -> Vec<Violation> {
+    let mut violations: Vec<Violation> = Vec::new();
+    let store = Store::new(scn.backend, scn.walk_seed, &scn.entries);
+    let fs: Arc<SimFs> = match store.sim() {
+        Some(fs) => fs.clone(),
+        None => return violations,
+    };
+    let options = match process_options(scn) {
+        Ok(options) => options,
+        Err(err) => {
+            violations.push(Violation::new(P, "harness", "options", err));
+            return violations;
+        }
+    };
+    let region = crate::c10::output_dir(&scn.opts);
+    let mut oracle = Oracle::new(scn.backend, &store, &region);
+    let mut watcher = FileWatcher::verif_new(
+        &options,
+        store.resources(),
+        Some(PathBuf::from(SIM_CWD)),
+    );
+    let mut watches = Watches::default();
+    let mut debounce = Debounce::default();
+    let base = Instant::now();
+    let file_count = scn.entries.len() + scn.ops.len();
+    let budget = 600 + 64 * (file_count as u64 + 2) * 16;
+    let mut pass_index = 0usize;
+    let mut started = false;
+    let mut signature = 0u64;
+    let mut next_tick: u64 = TICK_MS;
+    let mut pending_fault_pass = false;
+    let mut pending_renotify: Vec<String> = Vec::new();
+    // message of the batch-level error of the most recent pass, if it failed as a whole
+    let mut last_batch_error: Option<String> = None;
+
+    // the configuration is always read from a file in L2
+    let config_paths: Vec<String> = match &scn.opts.config {
+        ConfigSource::At(path) => vec![path.clone()],
+        _ => vec![".darklua.json".to_owned(), ".darklua.json5".to_owned()],
+    };
+
+    // deliver every batch due up to (and including) time `until`
+    macro_rules! advance {
+        ($until:expr, $compare_last:expr) => {{
+            let until: u64 = $until;
+            let mut delivered_any = false;
+            while next_tick <= until {
+                debounce.now = next_tick;
+                next_tick += TICK_MS;
+                let batch = debounce.debounced_events();
+                if batch.is_empty() {
+                    continue;
+                }
+                delivered_any = true;
+                let log_start = fs.log_len();
+                fs.set_budget(budget);
+                let events = to_debounced(&batch, base);
+                if std::env::var_os("VERIF_TRACE").is_some() {
+                    crate::outln!(
+                        "[t={}] batch {:?}\n  watches dirs={:?} files={:?}",
+                        debounce.now,
+                        batch
+                            .iter()
+                            .map(|e| format!("{:?} {:?}", e.kind, e.paths.iter().map(|p| strip_cwd(p)).collect::<Vec<_>>()))
+                            .collect::<Vec<_>>(),
+                        watches.dirs,
+                        watches.files
+                    );
+                }
+                let _ = exec::take_captured_errors();
+                let result = exec::catch(|| watcher.verif_batch(events));
+                last_batch_error = exec::take_captured_errors()
+                    .into_iter()
+                    .find(|(target, _)| target.contains("file_watcher"))
+                    .map(|(_, message)| message);
+                fs.set_budget(u64::MAX / 2);
+                let pass_log = fs.log_since(log_start);
+                for rec in &pass_log {
+                    if let Some(kind) = rec.fault {
+                        *stats.faults_fired.entry(format!("{:?}", kind)).or_insert(0) += 1;
+                    }
+                }
+                fs.set_faults(Vec::new());
+                signature = crate::rng::mix(signature, crate::c11::io_signature(&pass_log));
+                oracle.note_log(&pass_log);
+                stats.passes += 1;
+                stats.executions += 1;
+                *stats.ops.entry("Batch".to_owned()).or_insert(0) += 1;
+                for signal in watcher.verif_drain_signals() {
+                    match signal {
+                        crate::cli::utils::VerifWatchSignal::Watch(p) => {
+                            watches.watch_recursive(&fs, &strip_cwd(&p))
+                        }
+                        crate::cli::utils::VerifWatchSignal::Unwatch(p) => {
+                            watches.unwatch(&strip_cwd(&p))
+                        }
+                        crate::cli::utils::VerifWatchSignal::Exit => {}
+                    }
+                }
+                if let Err(msg) = result {
+                    violations.push(Violation::new(
+                        P,
+                        "bounded",
+                        &format!("panic@{}", msg.rsplit(" at ").next().unwrap_or("?")),
+                        format!(
+                            "the watcher panicked on batch {:?}: {}",
+                            batch
+                                .iter()
+                                .map(|e| format!("{:?} {:?}", e.kind, e.paths.iter().map(|p| strip_cwd(p)).collect::<Vec<_>>()))
+                                .collect::<Vec<_>>(),
+                            msg
+                        ),
+                    ));
+                    break;
+                }
+                let rec_writes: BTreeSet<String> = pass_log
+                    .iter()
+                    .filter(|r| r.op == crate::simfs::OpKind::Write)
+                    .map(|r| r.path.clone())
+                    .collect();
+                let outputs = store
+                    .snapshot()
+                    .iter()
+                    .filter(|(p, c)| c.is_some() && (p.starts_with(&format!("{}/", region)) || **p == region))
+                    .count();
+                if !rec_writes.is_empty() && rec_writes.len() < outputs {
+                    stats.nontrivial = true;
+                }
+            }
+            let _ = delivered_any;
+            debounce.now = until;
+        }};
+    }
+
+    let mut now: u64 = 0;
+    for (op_index, op) in scn.ops.iter().enumerate() {
+        if !violations.is_empty() {
+            break;
+        }
+        *stats.ops.entry(op_kind(op).to_owned()).or_insert(0) += 1;
+        match op {
+            Op::Pass => {
+                if !started {
+                    // `FileWatcher::start`: first run, then the watches are installed
+                    started = true;
+                    fs.set_budget(budget);
+                    let log_start = fs.log_len();
+                    let _ = exec::take_captured_errors();
+                    let result = exec::catch(|| watcher.verif_first_run());
+                    last_batch_error = exec::take_captured_errors()
+                        .into_iter()
+                        .find(|(target, _)| target.contains("file_watcher"))
+                        .map(|(_, message)| message);
+                    fs.set_budget(u64::MAX / 2);
+                    let pass_log = fs.log_since(log_start);
+                    oracle.note_log(&pass_log);
+                    signature = crate::rng::mix(signature, crate::c11::io_signature(&pass_log));
+                    stats.passes += 1;
+                    stats.executions += 1;
+                    if let Err(msg) = result {
+                        violations.push(Violation::new(
+                            P,
+                            "bounded",
+                            &format!("panic@{}", msg.rsplit(" at ").next().unwrap_or("?")),
+                            format!("the first run panicked: {}", msg),
+                        ));
+                        break;
+                    }
+                    watches.watch_recursive(&fs, &scn.opts.input);
+                    for c in &config_paths {
+                        watches.watch_file(&fs, c);
+                    }
+                    for signal in watcher.verif_drain_signals() {
+                        match signal {
+                            crate::cli::utils::VerifWatchSignal::Watch(p) => {
+                                watches.watch_recursive(&fs, &strip_cwd(&p))
+                            }
+                            crate::cli::utils::VerifWatchSignal::Unwatch(p) => {
+                                watches.unwatch(&strip_cwd(&p))
+                            }
+                            crate::cli::utils::VerifWatchSignal::Exit => {}
+                        }
+                    }
+                } else {
+                    // let the debouncer drain completely
+                    let until = now + TIMEOUT_MS + 2 * TICK_MS;
+                    advance!(until, true);
+                    now = until;
+                    if !violations.is_empty() {
+                        break;
+                    }
+                    if !debounce.is_empty() {
+                        // cannot happen: every event is older than the timeout by now
+                        violations.push(Violation::new(
+                            P,
+                            "harness",
+                            "debouncer-not-drained",
+                            "events left in the debouncer after the drain window".to_owned(),
+                        ));
+                        break;
+                    }
+                }
+                let outcome = match &last_batch_error {
+                    Some(message) => Outcome::BatchErr(message.clone()),
+                    None => watcher_outcome(&watcher),
+                };
+                // faults are active during one drain window only
+                fs.set_faults(Vec::new());
+                let faulty_pass = pending_fault_pass;
+                pending_fault_pass = false;
+                let before = violations.len();
+                oracle.compare(
+                    &store,
+                    &scn.opts,
+                    &outcome,
+                    &[],
+                    pass_index,
+                    faulty_pass,
+                    stats,
+                    &mut violations,
+                );
+                pass_index += 1;
+                if violations.len() > before {
+                    break;
+                }
+                if faulty_pass {
+                    for path in std::mem::take(&mut pending_renotify) {
+                        let events = apply_op(&fs, &mut watches, &Op::Touch { path }, SaveStyle::InPlace);
+                        for e in events {
+                            debounce.now = now;
+                            debounce.add_event(e, |p| fs.user_exists(&strip_cwd(p)));
+                        }
+                    }
+                }
+            }
+            Op::Wait { ms } => {
+                let until = now + ms;
+                advance!(until, false);
+                now = until;
+            }
+            Op::Faults { rules, renotify } => {
+                fs.set_faults(rules.clone());
+                pending_fault_pass = true;
+                pending_renotify = renotify.clone();
+            }
+            Op::ConfigObject { .. } => {}
+            other => {
+                if !started {
+                    continue;
+                }
+                // classification help for the oracle
+                match other {
+                    Op::RemoveFile { path } | Op::RemoveDir { path } | Op::Rename { from: path, .. } => {
+                        for p in store.snapshot().keys() {
+                            if (p == path || p.starts_with(&format!("{}/", path))) && gen::is_lua(p) {
+                                oracle.removed_sources.insert(p.clone());
+                            }
+                        }
+                    }
+                    Op::Edit { path, .. } | Op::Add { path, .. } => {
+                        oracle.removed_sources.remove(path);
+                    }
+                    _ => {}
+                }
+                let style = match other {
+                    Op::Edit { path, body } => {
+                        // files that are only covered by an inode watch are saved in place
+                        // (an atomic save there loses the watch: a lost notification, out
+                        // of scope); so is the configuration
+                        let only_inode = !watches.dir_watched(path);
+                        let _ = body;
+                        // the debouncer coalesces a non-in-place save with other
+                        // operations on the same path in the same window into batches
+                        // that lose information (create + remove = nothing): such
+                        // lost notifications are out of scope, so those styles are used
+                        // only when the save is alone in its debounce window
+                        let pending = debounce.has_queue_under(&abs(path))
+                            || debounce.has_queue_under(&abs(gen::parent(path)));
+                        let mut followed = false;
+                        let mut waited = 0u64;
+                        for later in &scn.ops[op_index + 1..] {
+                            match later {
+                                Op::Pass => break,
+                                Op::Wait { ms } => {
+                                    waited += ms;
+                                    if waited >= TIMEOUT_MS + 2 * TICK_MS {
+                                        break;
+                                    }
+                                }
+                                Op::Faults { .. } | Op::ConfigObject { .. } => {}
+                                other_op => {
+                                    let touches = match other_op {
+                                        Op::Edit { path: p, .. }
+                                        | Op::Add { path: p, .. }
+                                        | Op::Touch { path: p }
+                                        | Op::RemoveFile { path: p }
+                                        | Op::RemoveDir { path: p } => {
+                                            p == path || path.starts_with(&format!("{}/", p))
+                                        }
+                                        Op::Rename { from, to } => from == path || to == path,
+                                        _ => false,
+                                    };
+                                    if touches {
+                                        followed = true;
+                                    }
+                                }
+                            }
+                        }
+                        // a file under both a directory watch and an inode watch (darklua
+                        // adds one for every bundled dependency): the real stack delivers
+                        // nothing at all for an atomic save there (calibrated) - a lost
+                        // notification, out of scope
+                        let both = watches.files.contains(path);
+                        if only_inode || pending || followed || both {
+                            SaveStyle::InPlace
+                        } else {
+                            style_for(scn.seed, op_index)
+                        }
+                    }
+                    _ => SaveStyle::InPlace,
+                };
+                // operations on a path that still has undelivered events are separated by
+                // a full debounce window: what the debouncer makes of several operations
+                // on one path in one window (create + remove = nothing, rename + remove =
+                // remove of the new name only) loses notifications, which is out of scope
+                let related: Vec<String> = match other {
+                    Op::Edit { path, .. }
+                    | Op::Add { path, .. }
+                    | Op::Touch { path }
+                    | Op::RemoveFile { path }
+                    | Op::RemoveDir { path } => vec![path.clone()],
+                    Op::Rename { from, to } => vec![from.clone(), to.clone()],
+                    _ => Vec::new(),
+                };
+                let interferes = related.iter().any(|p| {
+                    let a = abs(p);
+                    debounce.has_queue_under(&a) || {
+                        let mut anc = a.parent();
+                        let mut hit = false;
+                        while let Some(x) = anc {
+                            if debounce.has_exact_queue(x) {
+                                hit = true;
+                            }
+                            anc = x.parent();
+                        }
+                        hit
+                    } || debounce.has_queue_under(&abs(&format!("{}.tmp~", p)))
+                });
+                if interferes {
+                    let until = now + TIMEOUT_MS + 2 * TICK_MS;
+                    advance!(until, false);
+                    now = until;
+                    if !violations.is_empty() {
+                        break;
+                    }
+                }
+                debounce.now = now;
+                let events = apply_op(&fs, &mut watches, other, style);
+                if std::env::var_os("VERIF_TRACE").is_some() {
+                    crate::outln!(
+                        "[t={}] op {} {:?} -> {} raw events; dirs={:?} files={:?}",
+                        now,
+                        op_kind(other),
+                        style,
+                        events.len(),
+                        watches.dirs,
+                        watches.files
+                    );
+                }
+                *stats
+                    .ops
+                    .entry(format!("save:{:?}", style))
+                    .or_insert(0) += matches!(other, Op::Edit { .. }) as u64;
+                for e in events {
+                    debounce.add_event(e, |p| fs.user_exists(&strip_cwd(p)));
+                }
+            }
+        }
+    }
+    stats.sim_ms = now;
+    stats.io_signature = signature;
+    let _ = Body::Dir;
+    violations
 }
